@@ -63,6 +63,18 @@ theorem stretch_exact (p : Part) (m : Mode) (h : WF p m) (pre post : List KP) (k
     field_simp
     ring
 
+/-- **Segment formula** in absolute form: on the stretch after key point `k` the value is the value at
+`k` plus `(x - k.t) * fac / divs` -/
+theorem fwd_segment (p : Part) (m : Mode) (h : WF p m) (pre post : List KP) (k k' : KP)
+    (hk : keypoints p m = pre ++ k :: k' :: post) (x : Rat)
+    (hx : (k.t : Rat) ≤ x) (hx' : x ≤ (k'.t : Rat)) :
+    ∃ yk, fwd p m (k.t : Rat) = some yk ∧ fwd p m x = some (yk + (x - (k.t : Rat)) * (k.fac / k.divs)) := by
+  obtain ⟨ya, yb, h1, h2, h3⟩ := stretch_exact p m h pre post k k' hk _ x (le_refl _) hx hx'
+  refine ⟨ya, h1, ?_⟩
+  rw [h2]
+  congr 1
+  linarith
+
 example : ∃ pre post k k', keypoints exPart .notated = pre ++ k :: k' :: post ∧ k.t = 23 ∧ k'.t = 31 ∧
     k.divs = 6 ∧ k.fac = 1 := by
   refine ⟨[⟨0, 4, 2⟩, ⟨10, 6, 2⟩], [⟨64, 5, 1/2⟩, ⟨77, 12, 1/2⟩, ⟨120, 12, 1/2⟩], ⟨23, 6, 1⟩, ⟨31, 5, 1⟩, ?_⟩
